@@ -3,6 +3,11 @@ import json, os
 V = os.path.dirname(os.path.dirname(os.path.abspath(__file__)))
 
 CHECKS = {
+ "C07": dict(
+   technique="TLA+ spec of linear algebra over the ring Q[t]/(t^D) (LinAlg.tla: Leibniz determinant, adjugate inverse, dot for every rank pair from NumPy's rule); TLC checks the defining identities on every instance and prints exact rational results; replay against algopy",
+   text="TLC checks, as identities modulo t^D on every instance, A inv(A) = inv(A) A = I, det(A) inv(A) = adj(A), A solve(A,B) = B, multiplicativity of det and the triangular product rule, (log det)' = det'/det, the transpose rule of dot, outer = column x row, exp(A) exp(-A) = I for nilpotent A. Each instance (13 base matrices incl. ones needing row interchanges and a cyclic row permutation, 10 rank combinations of dot up to 3-D x 3-D, operand kinds UTPM/UTPM, UTPM/ndarray, ndarray/UTPM, single and paired as two directions with different base matrices, D <= 5) is run through algopy.inv/solve/det/logdet/trace/dot/outer/expm and compared with the exact rational series; operands must be unchanged.",
+   note="matrix sizes <= 3, D <= 5 (32-bit integers in TLC limit the size of exact inverses); expm beyond nilpotent matrices is compared with algopy.exp/sin/cos on diagonal and rotation generators; solve with a 1-D right-hand side is documented as unsupported (explicit ValueError)",
+   design="3.5, 4 (C07)"),
  "C09": dict(
    technique="TLA+ spec of forward-mode seeding/extraction (direction sets, polarisation identities, exact interpolation) over the TPS algebra, TLC exhaustive over monomials x integer points; instances replayed through UTPM.init_* / UTPM arithmetic / UTPM.extract_*",
    text="TLC proves extract o propagate o init = analytic derivative for Jacobian, J v, Hessian, H v and all d-th order partials for every monomial up to the degree bound in N <= 3 (4) variables at every integer point of the catalogue (by linearity: all polynomials of that degree); each instance is evaluated through the real drivers with float and int points, plus integer combinations and exp/sin compositions (chain rule on the exact partials), and the direction sets produced by init_hessian / init_hess_vec are compared with the spec's sets.",
